@@ -132,22 +132,6 @@ fn main() {
     if child_main() {
         return;
     }
-    if std::env::args().nth(1).as_deref() == Some("probe-wal") {
-        let d = scratch_dir("pw");
-        let p = d.join("x.mv2");
-        let mut m = memvid_core::Memvid::create(&p).unwrap();
-        let len: usize = std::env::args().nth(2).and_then(|x| x.parse().ok()).unwrap_or(2000);
-        for i in 0..40u64 {
-            let mut o = memvid_core::PutOptions::default();
-            o.auto_tag = false; o.extract_dates = false; o.extract_triplets = false;
-            let r = m.put_bytes_with_options(&payload(1, len, 100 + i), o);
-            let st = memvid_core::verif_hooks::verif_state(&m);
-            println!("put {i}: {:?} wh={} pend={} walsize={} frames={}", r.is_ok(), st.hdr_wal_checkpoint_pos + st.wal_pending_bytes, st.wal_pending_bytes, st.hdr_wal_size, m.frame_count());
-        }
-        drop(m);
-        let _ = std::fs::remove_dir_all(&d);
-        return;
-    }
     let args = parse_args();
     let exe = std::env::current_exe().unwrap();
     let mut sum = Summary::new("C02", &args, "one evaluation = one process-crash point (prefix of the recorded syscall stream) of one history: surviving m.mv2 reopened by the real Memvid::open and judged against the acknowledged-operations reference; distinct_nontrivial = distinct surviving images");
